@@ -422,6 +422,15 @@ func c20Judge(k *core.Case, in *c20Input, r c20Result) {
 	}
 }
 
+// c20Regress: (seed, index in the schema list) of base frames kept for regression.
+var c20Regress = []struct {
+	seed uint64
+	idx  int
+	what string
+}{
+	{1, 11395, "Fetch v10: first record-set length + 1 shifts the decode by one byte, the bytes then taken for a snappy batch announce 2^28 decoded bytes (fixed by bee4a94)"},
+}
+
 func runC20(c *core.Ctx) {
 	c.SetExhaustive(false)
 	mgr := newC20Mgr(c)
@@ -472,6 +481,19 @@ func runC20(c *core.Ctx) {
 		for _, f := range fields {
 			c.Count("fields:"+f.Role, 1)
 		}
+		evaluate(k, ins)
+	})
+
+	// ---- regress list: base frames whose mutants exposed a defect in an earlier (thorough) run, regenerated
+	// from their recorded (seed, case index) so that the quick tier re-checks them on every run
+	c.Cases("regress", len(c20Regress), func(k *core.Case) {
+		rg := c20Regress[k.Idx]
+		p := sp[rg.idx%len(sp)]
+		r := core.NewRand(core.Mix(core.HashString("C20"), core.HashString("schema"), rg.seed, uint64(rg.idx)))
+		frame, fields := c20SchemaFrame(r, p.API, int(p.Ver))
+		ins := []*c20Input{{Mode: 'd', API: p.T.Key, Ver: p.Ver, APIName: p.T.Name, Frame: frame, Role: "none", Kind: "base", VClass: "base", Base: true}}
+		ins = append(ins, c20Mutants(p, frame, fields)...)
+		k.Describe(map[string]any{"regress": rg.what, "api": p.T.Name, "version": p.Ver, "frame_len": len(frame), "mutants": len(ins) - 1})
 		evaluate(k, ins)
 	})
 
